@@ -13,6 +13,7 @@ import (
 	"verif/harness/internal/c07"
 	"verif/harness/internal/c08"
 	"verif/harness/internal/c11"
+	"verif/harness/internal/c12"
 	"verif/harness/internal/c14"
 	"verif/harness/internal/c15"
 )
@@ -27,6 +28,8 @@ func main() {
 		os.Exit(c01.Main(os.Args[2:]))
 	case "c03":
 		os.Exit(c03.Main(os.Args[2:]))
+	case "c12":
+		os.Exit(c12.Main(os.Args[2:]))
 	case "c08":
 		os.Exit(c08.Main(os.Args[2:]))
 	case "c14":
